@@ -9,3 +9,6 @@ import RSVerif.Properties.C03
 #print axioms RS.engines_agree_objects
 #print axioms RS.loops_eq_model
 #print axioms RS.simd_kernel_spec
+#print axioms RS.simd_block_kernels_agree
+#print axioms RS.simd_block_butterflies
+#print axioms RS.flat_butterflies_refine
